@@ -120,13 +120,18 @@ def isolate_crash(rep, hc, stage):
             try:
                 p = subprocess.run([exe] + hc.cmd + ["-in", hf, "-out", os.path.join(d, "o.ndjson")], capture_output=True, text=True, timeout=120)
                 crashed = p.returncode != 0
-                tail = (p.stdout[-500:] + p.stderr[-1500:])
+                tail = (p.stdout[-300:] + p.stderr[:2500])
             except subprocess.TimeoutExpired:
                 crashed, tail = True, "timeout (no termination within 120 s)"
             if not crashed:
                 ok = False
                 break
         if ok:
+            # whose panic is it?  The first frame of the panicking goroutine that is not the Go runtime decides: a frame of the
+            # harness itself (main.*) with no library frame above it is a defect of the HARNESS (never a verdict)
+            frames = [x.split("(")[0].strip() for x in tail.split("\n") if re.match(r"^(main\.|github\.com/onflow/atree)", x.strip())]
+            if frames and frames[0].startswith("main.") and "fatal error: stack overflow" not in tail and "library call failed:" not in tail:
+                raise Inconclusive("the harness itself panicked (defect of the machinery, not a verdict): " + tail[:600])
             sig = "crash:%s" % hc.cmd[0]
             first = [x for x in tail.split("\n") if x.startswith("fatal error") or x.startswith("panic") or "timeout" in x]
             what = "the library takes the process down (%s) while executing a valid history of %d ops" % (first[0] if first else "fatal runtime error", len(json.loads(h)))
